@@ -365,7 +365,7 @@ func identityString(id goidentity.Identity) string {
 	for i, x := range c.CName().NameString {
 		cs[i] = XS(x)
 	}
-	return fmt.Sprintf("%s %s %d", List(cs), XS(c.Domain()), c.ValidUntil().UnixNano()/1000)
+	return fmt.Sprintf("%s %s %d", List(cs), XS(c.Domain()), Micros(c.ValidUntil()))
 }
 
 const (
@@ -428,7 +428,7 @@ func runSpCase(t *testing.T, m *Model, rng *RNG, c spCase, replay bool, shared h
 				vu := now.Add(3 * time.Hour).Truncate(time.Second)
 				cr.SetValidUntil(vu)
 				fs.stored, _ = cr.Marshal()
-				sessTok = fmt.Sprintf("c:%s:%s:%s:%d", B(c.session == "valid"), XS("sessionuser"), XS("SESSION.REALM"), vu.UnixNano()/1000)
+				sessTok = fmt.Sprintf("c:%s:%s:%s:%d", B(c.session == "valid"), XS("sessionuser"), XS("SESSION.REALM"), Micros(vu))
 			}
 		}
 		once := func() string {
@@ -725,6 +725,80 @@ func c03CompareOn(t *testing.T, m *Model, v *Verdict, rng *RNG, c spCase, replay
 	}
 }
 
+// c03Interleaved: two requests in flight on one wrapped handler, the first one held inside the construction
+// of its settings while the second one is served from start to end. What a request is answered must be
+// what it is answered when it is served alone: nothing of one request (its peer address in particular) may
+// reach the verification of another.
+func c03Interleaved(t *testing.T, m *Model, v *Verdict, rng *RNG, et int32) {
+	type leg struct{ bound, from, other string }
+	legs := []leg{
+		{"10.0.0.1", "10.0.0.2:4000", "10.0.0.1:5000"}, // ticket bound to .1 presented from .2 while .1 talks to the service
+		{"10.0.0.1", "10.0.0.1:4000", "10.0.0.2:5000"}, // the rightful holder while someone else talks to the service
+	}
+	for _, lg := range legs {
+		synctest.Test(t, func(t *testing.T) {
+			now := time.Now()
+			kt, _ := serviceKeytab()
+			var armed atomic.Bool
+			inA, resume := make(chan struct{}), make(chan struct{})
+			gate := func(s *service.Settings) {
+				if armed.CompareAndSwap(true, false) {
+					close(inA)
+					<-resume
+				}
+			}
+			// an options slice with room to spare, as an application gets it from a few appends
+			opts := make([]func(*service.Settings), 0, 16)
+			opts = append(opts, service.MaxClockSkew(5*time.Minute), service.DecodePAC(false), service.Logger(discard), gate)
+			h := spnego.SPNEGOKRB5Authenticate(http.HandlerFunc(func(w http.ResponseWriter, r *http.Request) { w.WriteHeader(200) }), kt, opts...)
+			serve := func(remote, hdr string) int {
+				req := httptest.NewRequest("GET", "http://host.test.gokrb5/resource", nil)
+				req.RemoteAddr = remote
+				if hdr != "" {
+					req.Header["Authorization"] = []string{hdr}
+				}
+				w := httptest.NewRecorder()
+				if p := Protect(func() { h.ServeHTTP(w, req) }); p != "" {
+					return -1
+				}
+				return w.Code
+			}
+			mint := func() string {
+				c := baseSp(et)
+				c.ap.caddr = []types.HostAddress{{AddrType: 2, Address: []byte{10, 0, 0, 1}}}
+				c.ap = uniquify(c.ap, uniqueID())
+				_, apb, err := mintAPReq(m, rng, c.ap, now)
+				if err != nil {
+					return ""
+				}
+				tok, _ := c.token(apb, rng)
+				return c.header(tok)
+			}
+			h1, h2 := mint(), mint()
+			if h1 == "" || h2 == "" {
+				v.Note("interleaved: case not minted")
+				return
+			}
+			alone := serve(lg.from, h1)
+			armed.Store(true)
+			done := make(chan int, 1)
+			go func() { done <- serve(lg.from, h2) }()
+			<-inA
+			serve(lg.other, "") // a whole other request while the first one is being set up
+			close(resume)
+			inter := <-done
+			v.Case(fmt.Sprintf("interleaved/%d/%s-from-%s", et, lg.bound, lg.from), fmt.Sprintf("interleaved -> alone %d, in flight %d", alone, inter))
+			if alone != inter {
+				what := "a request is answered differently when another request is in flight on the same handler"
+				if inter == 200 {
+					what = "a request that is refused when served alone reaches the wrapped handler when another peer's request is in flight (the other peer's address was used to verify it)"
+				}
+				v.Violate("failing-input", "c03:interleaved-requests", what, map[string]string{"etype": itoa(et), "ticket-bound-to": lg.bound, "presented-from": lg.from, "other-request-from": lg.other, "alone": fmt.Sprint(alone), "in-flight": fmt.Sprint(inter)})
+			}
+		})
+	}
+}
+
 // the token verification APIs: SPNEGOToken.Unmarshal + SPNEGO.AcceptSecContext, and the Verify methods
 func c03API(t *testing.T, m *Model, v *Verdict, rng *RNG, c spCase) {
 	desc := "api:" + c.describe()
@@ -925,6 +999,9 @@ func TestC03(t *testing.T) {
 			}
 			c03CompareOn(t, m, v, rng, c, false, h)
 		}
+	}
+	for _, et := range ets {
+		c03Interleaved(t, m, v, rng, et)
 	}
 	v.ModelAsks = m.N
 	v.Write(t)
